@@ -408,6 +408,7 @@ func c07One(c *core.Ctx, r *gen.Rand, g c07Getter, length, posA, extraA int) {
 	}
 	var wireA, wireB []byte
 	var fillA, fillB int
+	plantedCorrect := false
 	extraB := c07Caps[r.Intn(len(c07Caps))]
 	switch g.kind {
 	case 2: // fingerprint: identical bytes, only capacity and spare fill differ
@@ -426,9 +427,10 @@ func c07One(c *core.Ctx, r *gen.Rand, g c07Getter, length, posA, extraA int) {
 		if length == 20 && r.Bool() {
 			// a correct MAC: the passing branch
 			rmA, _ := ref.Parse(wireA)
-			macA, _, _ := ref.IntegrityExpected(wireA, rmA, key)
+			macA, tlvA, _ := ref.IntegrityExpected(wireA, rmA, key)
 			copy(wireA[offA:], macA)
 			copy(wireB[offB:], macA)
+			plantedCorrect = tlvA.Off == offA // the target is the first MESSAGE-INTEGRITY of the message
 		}
 	default:
 		wireA, _, fillA = mk(true, posA)
@@ -462,6 +464,13 @@ func c07One(c *core.Ctx, r *gen.Rand, g c07Getter, length, posA, extraA int) {
 		d := detail()
 		d["diff"] = oa.mutated + ob.mutated
 		c.Violate("side-effect", "side-effect:"+g.name, d)
+
+		return
+	}
+	if plantedCorrect && (oa.errc != "nil" || ob.errc != "nil") {
+		// the twins share everything in front of the MAC, so a fault that depends on what stands there hits both alike:
+		// the passing branch is therefore also held against the MAC computed per RFC 5389
+		c.Violate("non-local", "valid-mac-rejected:"+g.name, detail())
 
 		return
 	}
